@@ -65,6 +65,37 @@ type Spec struct {
 	ShadowWkts int `json:"shadow_wkts,omitempty"`
 	// Pkg is the package variant per file (nil = every file has its own package): pOwn, pShared, pNone.
 	Pkg []int `json:"pkg,omitempty"`
+	// Bystander adds one more module (directory bystanderDir) to the workspace that contains no .proto file at all:
+	// 0 = none, otherwise the content variant (bystanderReadme, bystanderNested, bystanderProtoLike).
+	Bystander int `json:"bystander,omitempty"`
+	// BystanderFirst lists the bystander module before the other modules in the workspace configuration (default: last).
+	BystanderFirst bool `json:"bystander_first,omitempty"`
+	// V1 renders a v1 workspace (buf.work.yaml plus one v1 buf.yaml per module directory) instead of a v2 buf.yaml.
+	// Not possible for a module at the workspace root.
+	V1 bool `json:"v1,omitempty"`
+}
+
+// Content variants of the bystander module (a module of the workspace without .proto files).
+const (
+	bystanderReadme    = 1 // only a README.md
+	bystanderNested    = 2 // a LICENSE and a text file in a sub directory
+	bystanderProtoLike = 3 // files whose names look like proto files but are not (x/f0.proto.bak at the path of a real file, proto.txt)
+)
+
+var bystanderNames = []string{"none", "readme-only", "nested-non-proto-files", "proto-like-names"}
+
+const bystanderDir = "mc"
+
+func bystanderFiles(kind int) map[string]string {
+	switch kind {
+	case bystanderReadme:
+		return map[string]string{"README.md": "# nothing here yet\n"}
+	case bystanderNested:
+		return map[string]string{"LICENSE": "none\n", "docs/notes/plan.txt": "protos will be added later\n"}
+	case bystanderProtoLike:
+		return map[string]string{"x/f0.proto.bak": "syntax = \"proto3\";\nmessage Old {}\n", "proto.txt": "message NotAProtoFile {}\n"}
+	}
+	return nil
 }
 
 // Package variants of a file.
@@ -290,6 +321,10 @@ type World struct {
 	BufYAML  string   // "" = no buf.yaml
 	Extra    map[string]string
 	Files    []File
+	// EmptyMods are the directories of the workspace modules that contain no .proto file (they are listed in ModDirs too,
+	// after the modules that own files). NonProto are the workspace-relative paths of the files in them.
+	EmptyMods []string
+	NonProto  []string
 }
 
 func joinDir(dir, p string) string {
@@ -301,14 +336,47 @@ func joinDir(dir, p string) string {
 
 // Render produces the world of a spec.
 func (s *Spec) Render() *World {
-	w := &World{ModDirs: s.ModDirs}
-	var y strings.Builder
-	y.WriteString("version: v2\nmodules:\n")
+	w := &World{ModDirs: append([]string(nil), s.ModDirs...)}
 	for _, d := range s.ModDirs {
 		w.ModNames = append(w.ModNames, modName(d))
-		fmt.Fprintf(&y, "  - path: %s\n    name: %s\n", d, modName(d))
 	}
-	w.BufYAML = y.String()
+	listed := append([]string(nil), s.ModDirs...)
+	if s.Bystander != 0 {
+		w.ModDirs = append(w.ModDirs, bystanderDir)
+		w.ModNames = append(w.ModNames, modName(bystanderDir))
+		w.EmptyMods = []string{bystanderDir}
+		w.Extra = map[string]string{}
+		for p, text := range bystanderFiles(s.Bystander) {
+			w.Extra[joinDir(bystanderDir, p)] = text
+			w.NonProto = append(w.NonProto, joinDir(bystanderDir, p))
+		}
+		sort.Strings(w.NonProto)
+		if s.BystanderFirst {
+			listed = append([]string{bystanderDir}, listed...)
+		} else {
+			listed = append(listed, bystanderDir)
+		}
+	}
+	if s.V1 {
+		// v1 workspace: buf.work.yaml lists the directories, every directory has its own v1 buf.yaml with the module name
+		if w.Extra == nil {
+			w.Extra = map[string]string{}
+		}
+		var y strings.Builder
+		y.WriteString("version: v1\ndirectories:\n")
+		for _, d := range listed {
+			fmt.Fprintf(&y, "  - %s\n", d)
+			w.Extra[joinDir(d, "buf.yaml")] = fmt.Sprintf("version: v1\nname: %s\n", modName(d))
+		}
+		w.Extra["buf.work.yaml"] = y.String()
+	} else {
+		var y strings.Builder
+		y.WriteString("version: v2\nmodules:\n")
+		for _, d := range listed {
+			fmt.Fprintf(&y, "  - path: %s\n    name: %s\n", d, modName(d))
+		}
+		w.BufYAML = y.String()
+	}
 	for i := 0; i < s.N; i++ {
 		w.Files = append(w.Files, File{Path: relPaths[i], Module: s.Mod[i], Ext: joinDir(s.ModDirs[s.Mod[i]], relPaths[i]), Text: s.renderFile(i), Index: i})
 	}
@@ -475,11 +543,15 @@ func refTargets(w *World, sel Selection) []string {
 }
 
 // selectionMayBeRejected: selections buf is known to refuse for reasons unrelated to the property (a module
-// directory given as --path / --exclude-path, the same value for both flags, an exclude that contains a path).
-// For those either outcome is accepted; if an image is produced it is still checked.
+// directory given as --path / --exclude-path, the same value for both flags, an exclude that contains a path; a
+// selection that targets a module without .proto files as a whole: buf demands a .proto file of every module it is asked
+// to build). For those either outcome is accepted; if an image is produced it is still checked.
 func selectionMayBeRejected(w *World, sel Selection) bool {
 	if sel.ProtoFile != "" {
 		return false
+	}
+	if targetsEmptyModule(w, sel) {
+		return true
 	}
 	isMod := func(p string) bool {
 		for _, d := range w.ModDirs {
@@ -507,12 +579,33 @@ func selectionMayBeRejected(w *World, sel Selection) bool {
 	return false
 }
 
-// pathCandidates lists every file and every directory (below the root) of the world, sorted.
+// targetsEmptyModule: the selection makes a module without .proto files a target module as a whole. That is the case
+// when the input directory is the workspace root or that module and no --path narrows the targets down (with --path
+// only the modules that contain one of the paths are target modules, and a .proto file reference targets the module of
+// the file only).
+func targetsEmptyModule(w *World, sel Selection) bool {
+	if sel.ProtoFile != "" || len(sel.Paths) > 0 {
+		return false
+	}
+	for _, d := range w.EmptyMods {
+		if sel.SubDir == "." || sel.SubDir == "" || sel.SubDir == d {
+			return true
+		}
+	}
+	return false
+}
+
+// pathCandidates lists every file and every directory (below the root) of the world, sorted. The non-proto files of a
+// module without .proto files (and their directories) are candidates as well.
 func pathCandidates(w *World) []string {
 	set := map[string]bool{}
+	exts := append([]string(nil), w.NonProto...)
 	for _, f := range w.Files {
-		set[f.Ext] = true
-		p := f.Ext
+		exts = append(exts, f.Ext)
+	}
+	for _, ext := range exts {
+		set[ext] = true
+		p := ext
 		for {
 			i := strings.LastIndex(p, "/")
 			if i < 0 {
